@@ -556,6 +556,8 @@ def enc(r, v, sc):
         return pat * n
     if k == "Renamed":
         return enc(a[1], v, sc)
+    if k == "Lazy":
+        return enc(a[0], v, sc)
     if k in ("Hex", "HexDump"):
         return enc(a[0], v, sc)
     if k in ("OneOf", "NoneOf"):
@@ -665,7 +667,7 @@ def enc(r, v, sc):
         return body + bytes(n - len(body))
     if k == "NullTerminated":
         term = untag(a[1]) if len(a) > 1 else b"\x00"
-        return enc(a[0], v, sc) + term
+        return enc(a[0], v, sc) + term          # building always writes the terminator (also with include=True: documented asymmetry)
     if k == "NullStripped":
         return enc(a[0], v, sc)
     if k == "Padded":
@@ -689,7 +691,9 @@ def enc(r, v, sc):
         if any(b > 1 for b in bits):
             raise ModelGap("non-bit content in bit region")
         if len(bits) % 8:
-            raise ModelGap("unaligned bit region")
+            if statically_sized(a[0], sc):
+                raise ModelGap("unaligned bit region")       # a mis-declared fixed-size region: a construction error, not a data error
+            raise Reject("stream", "a streamed bit region must end on a byte boundary")
         out = bytearray()
         for i in range(0, len(bits), 8):
             x = 0
@@ -729,6 +733,14 @@ def rotl(data, amount, group):
         x = ((x << s) | (x >> (bits - s))) & ((1 << bits) - 1)
         out += x.to_bytes(group, "big")
     return bytes(out)
+
+
+def statically_sized(r, sc):
+    try:
+        size(r, top_scope({}))
+        return True
+    except (Unsized, MissingKey, ModelGap, Reject, KeyError, TypeError):
+        return False
 
 
 def dict_public(sc):
@@ -999,6 +1011,8 @@ def dec(r, buf, pos, end, sc):
         return None, pos
     if k == "Renamed":
         return dec(a[1], buf, pos, end, sc)
+    if k == "Lazy":
+        return dec(a[0], buf, pos, end, sc)
     if k in ("OneOf", "NoneOf"):
         v, pos = dec(a[0], buf, pos, end, sc)
         vals = [untag(x) if isinstance(x, dict) else x for x in a[1]]
@@ -1175,12 +1189,15 @@ def dec(r, buf, pos, end, sc):
             for j in range(7, -1, -1):
                 bits.append((x >> j) & 1)
         v, used = dec(a[0], bytes(bits), 0, len(bits), sc)
-        if used % 8:
-            raise ModelGap("unaligned bit region")
-        if used != len(bits) and "GreedyRange" in repr(a[0]):
-            # a repeated bit field that stops in front of bits too few for another element: the streaming implementation
-            # has already pulled those bytes in and refuses to drop them, the pre-read one leaves them - not modelled
-            raise ModelGap("bit region ends inside a partial repeated element")
+        if statically_sized(a[0], sc):
+            if used % 8:
+                raise ModelGap("unaligned bit region")
+            return v, pos + used // 8
+        # streamed region: bytes are pulled in on demand and every bit pulled in must be consumed.  A construct that probes
+        # ahead (a repeater looking for one more element, an optional part, a read-to-end field) pulls in everything that is left.
+        probes = any(x in repr(a[0]) for x in ("GreedyRange", "Optional", "Select", "GreedyBytes", "GreedyString"))
+        if (probes and used != len(bits)) or used % 8:
+            raise Reject("stream", "unread bits remain in a streamed bit region")
         return v, pos + used // 8
     if k == "Bytewise":
         # inner consumes bytes re-assembled from the bit stream: decode greedily what is available
